@@ -56,13 +56,20 @@ class Fn:
         return None
 
     def expr(self, e, env):
+        txt = ast.unparse(e)
+        if txt in env:  # whole expressions the function's table maps to a parameter
+            return env[txt]
         c = self.chain(e)
         if c is not None:  # a name, an attribute chain, possibly through cast(T, x)
             if c in env:
                 return env[c]
             if c in self.consts:
                 return fhex(self.consts[c]), "float"
+            if isinstance(e, ast.Attribute):
+                return self.attribute(e, env)
             raise Unsupported(f"unknown name {c}")
+        if isinstance(e, ast.Attribute):
+            return self.attribute(e, env)
         if isinstance(e, ast.Constant):
             if isinstance(e.value, bool):
                 return ("true" if e.value else "false"), "bool"
@@ -212,6 +219,13 @@ class Fn:
             raise Unsupported(f"call of {fn}")
         raise Unsupported(f"expression {type(e).__name__}")
 
+    # ---- objects of the schedule (slots, channel schedules) --------------------------------------
+    def attribute(self, e, env):
+        raise Unsupported(f"attribute {ast.unparse(e)}")
+
+    def for_loop(self, s, env, nxt):
+        raise Unsupported("for-loop")
+
     def expr_of_chain(self, c, env):
         if c in env:
             return env[c]
@@ -244,6 +258,8 @@ class Fn:
         if not stmts:
             if rest is not None:
                 return rest(env)
+            if getattr(self, "loops", None):
+                return self.loops[-1][1](env)
             if self.spec["ret"] == "res unit":
                 return "Ok tt"
             raise Unsupported("function may end without returning a value")
@@ -257,6 +273,8 @@ class Fn:
             self.notes.append("precondition (assert): " + ast.unparse(s.test))
             return nxt(env)
         if isinstance(s, ast.Return):
+            if getattr(self, "loops", None):
+                raise Unsupported("return inside a loop")
             if s.value is None:
                 return self.wrap("tt")
             a, ta = self.expr(s.value, env)
@@ -295,6 +313,16 @@ class Fn:
             a = self.block(s.body, env, nxt)
             b = self.block(s.orelse, env, nxt)
             return f"if {c}\n  then ({a})\n  else ({b})"
+        if isinstance(s, ast.Break):
+            if not getattr(self, "loops", None):
+                raise Unsupported("break outside a loop")
+            return self.loops[-1][0](env)
+        if isinstance(s, ast.Continue):
+            if not getattr(self, "loops", None):
+                raise Unsupported("continue outside a loop")
+            return self.loops[-1][1](env)
+        if isinstance(s, ast.For):
+            return self.for_loop(s, env, nxt)
         if isinstance(s, ast.With):
             if len(s.items) != 1 or self.chain(s.items[0].context_expr.func if isinstance(s.items[0].context_expr, ast.Call) else s.items[0].context_expr) != "warnings.catch_warnings":
                 raise Unsupported("with-statement other than warnings.catch_warnings()")
@@ -328,7 +356,7 @@ class Fn:
         for py, (cq, ty) in sp["params"].items():
             if cq not in [c for c, _ in seen]:
                 seen.append((cq, ty))
-        tyc = {"Z": "Z", "optZ": "option Z", "float": "float", "optfloat": "option float", "bool": "bool"}
+        tyc = COQTY
         body = self.block(self.node.body, env)
         ps = " ".join(f"({c} : {tyc[t]})" for c, t in seen)
         notes = "".join(f"(* {n} *)\n" for n in dict.fromkeys(self.notes))
@@ -413,6 +441,7 @@ def main(repo: Path, out: Path):
         "From Coq Require Import ZArith Bool.\nFrom Coq Require Import PrimFloat.\nFrom PV Require Import Model.Base.\nOpen Scope Z_scope.\n\n"
         "Definition gen_py_int (x : float) : Z := match f_trunc x with Some z => z | None => 0 end.\n\n" + "\n".join(defs)
     )
+    main_loops(repo, out)
 
 
 class TruthyFn(Fn):
@@ -431,6 +460,231 @@ class TruthyFn(Fn):
                 no = self.block(s.orelse, env, nxt)
                 return f"match {a} with\n  | Some {x} => if f_ne {x} zero then ({yes}) else ({no})\n  | None => ({no})\n  end"
         return Fn.block(self, stmts, env, rest)
+
+
+COQTY = {"Z": "Z", "optZ": "option Z", "float": "float", "optfloat": "option float", "bool": "bool",
+         "listZ": "list Z", "slot": "slot", "listslot": "list slot", "chan": "chan", "listchan": "list chan", "chanobj": "chan"}
+
+
+class LoopFn(Fn):
+    """adds: objects of the schedule (time slots, channel schedules, as the records of Model/Sched.v,
+    whose slot lists are stored latest-first, i.e. already in the order of `slots[::-1]`) and
+    `for` loops with break / continue, translated to structurally recursive Fixpoints over the list"""
+
+    CHOBJ = ("self.channel_obj", "this_chobj")
+
+    def __init__(self, *a):
+        super().__init__(*a)
+        self.loops = []
+        self.aux = []
+        self.bound = []  # (coq name, type) of let-bound / element variables in scope
+
+    def attribute(self, e, env):
+        o, to = self.expr(e.value, env)
+        a = e.attr
+        tab = {
+            ("slot", "tf"): (f"(s_tf {o})", "Z"),
+            ("slot", "ti"): (f"(s_ti {o})", "Z"),
+            ("slot", "targets"): (f"(s_tg {o})", "listZ"),
+            ("slot", "type"): (o, "slottype"),
+            ("chan", "channel_obj"): (o, "chanobj"),
+            ("chanobj", "rise_time"): (f"(c_rise (ch_cfg {o}))", "Z"),
+        }
+        if (to, a) in tab:
+            return tab[(to, a)]
+        raise Unsupported(f"attribute .{a} of a {to}")
+
+    def expr(self, e, env):
+        if ast.unparse(e) in env:
+            return env[ast.unparse(e)]
+        # isinstance(op.type, Pulse)
+        if isinstance(e, ast.Call) and isinstance(e.func, ast.Name) and e.func.id == "isinstance" and len(e.args) == 2:
+            o, to = self.expr(e.args[0], env)
+            if to == "slottype" and isinstance(e.args[1], ast.Name) and e.args[1].id == "Pulse":
+                return f"(is_pulse {o})", "bool"
+            raise Unsupported("isinstance other than (slot.type, Pulse)")
+        # op.type.fall_time(<the slot's own channel object>, in_eom_mode=b)
+        if isinstance(e, ast.Call) and isinstance(e.func, ast.Attribute) and e.func.attr == "fall_time":
+            o, to = self.expr(e.func.value, env)
+            if to != "slottype" or len(e.args) != 1 or ast.unparse(e.args[0]) not in self.CHOBJ:
+                raise Unsupported("fall_time on something other than a slot's pulse with its own channel object")
+            kws = {k.arg: k.value for k in e.keywords}
+            if set(kws) != {"in_eom_mode"}:
+                raise Unsupported("fall_time without exactly the in_eom_mode keyword")
+            b = self.truth(kws["in_eom_mode"], env)
+            p = self.var("p")
+            return f"(match s_kind {o} with KPulse {p} => pfall {b} {p} | _ => 0 end)", "Z"
+        # ch_schedule.in_eom_mode() / self[ch].in_eom_mode()
+        if isinstance(e, ast.Call) and isinstance(e.func, ast.Attribute) and e.func.attr == "in_eom_mode" and not e.args and not e.keywords:
+            o, to = self.expr(e.func.value, env)
+            if to != "chan":
+                raise Unsupported("in_eom_mode() of a non-channel")
+            return f"(in_eom {o})", "bool"
+        # a & b on target sets: used for its truth value
+        if isinstance(e, ast.BinOp) and isinstance(e.op, ast.BitAnd):
+            a, ta = self.expr(e.left, env)
+            b, tb = self.expr(e.right, env)
+            if ta == tb == "listZ":
+                return f"(intersects {a} {b})", "bool"
+            raise Unsupported("& on non-target-sets")
+        return super().expr(e, env)
+
+    def truth(self, e, env):
+        a, ta = self.expr(e, env)
+        if ta == "bool":
+            return a
+        return super().truth(e, env)
+
+    def block(self, stmts, env, rest=None):
+        # remember let-bound locals (they may be needed by an inner loop's Fixpoint)
+        if stmts and isinstance(stmts[0], ast.Assign) and len(stmts[0].targets) == 1 and isinstance(stmts[0].targets[0], ast.Name):
+            a, ta = self.expr(stmts[0].value, env)
+            if ta != "str":
+                x = stmts[0].targets[0].id
+                if (x, ta) not in self.bound:
+                    self.bound = self.bound + [(x, ta)]
+        return super().block(stmts, env, rest)
+
+    def assigned(self, stmts):
+        out = []
+        for n in stmts:
+            for m in ast.walk(n):
+                if isinstance(m, ast.Assign):
+                    out += [t.id for t in m.targets if isinstance(t, ast.Name)]
+                if isinstance(m, ast.AugAssign) and isinstance(m.target, ast.Name):
+                    out.append(m.target.id)
+        return list(dict.fromkeys(out))
+
+    def for_loop(self, s, env, nxt):
+        if s.orelse:
+            raise Unsupported("for-else")
+        it, tgt = s.iter, s.target
+        idx = None
+        if isinstance(it, ast.Call) and isinstance(it.func, ast.Name) and it.func.id == "enumerate" and len(it.args) == 1:
+            if not (isinstance(tgt, ast.Tuple) and len(tgt.elts) == 2 and all(isinstance(x, ast.Name) for x in tgt.elts)):
+                raise Unsupported("enumerate without (i, x) target")
+            idx, tgt, it = tgt.elts[0].id, tgt.elts[1], it.args[0]
+        env_l = dict(env)
+        lst = self.var("l")
+        rest_l = self.var("r")
+        if isinstance(it, ast.Call) and ast.unparse(it) == "self.items()":
+            # for ch, ch_schedule in self.items(): the channel schedules in declaration order
+            if not (isinstance(tgt, ast.Tuple) and len(tgt.elts) == 2 and all(isinstance(x, ast.Name) for x in tgt.elts)):
+                raise Unsupported("items() without (name, schedule) target")
+            src, ts = self.expr(it, env)
+            if ts != "listchan":
+                raise Unsupported("self.items() is not mapped to the list of channel schedules")
+            el = self.var("c")
+            k, v = tgt.elts[0].id, tgt.elts[1].id
+            env_l[k] = (f"(ch_name {el})", "Z")
+            env_l[v] = (el, "chan")
+            env_l[f"self[{k}]"] = (el, "chan")
+            elty = "chan"
+        elif isinstance(it, ast.Subscript) and ast.unparse(it.slice) == "::-1" and isinstance(tgt, ast.Name):
+            # for op in X[::-1]: X's slots, latest first (the order the model stores them in)
+            base_txt = ast.unparse(it.value)
+            if ast.unparse(it) in env:
+                src, ts = env[ast.unparse(it)]
+            else:
+                o, to = self.expr(it.value, env)
+                if to != "chan":
+                    raise Unsupported(f"reversed iteration over a {to}")
+                src, ts = f"(ch_slots {o})", "listslot"
+            if ts != "listslot":
+                raise Unsupported("reversed iteration over something other than slots")
+            el = self.var("op")
+            env_l[tgt.id] = (el, "slot")
+            elty = "slot"
+        else:
+            raise Unsupported(f"iteration over {ast.unparse(it)}")
+        carried = [x for x in self.assigned(s.body) if x in env]
+        if idx:
+            carried = [idx] + carried
+            env_l[idx] = (idx, "Z")
+        if not carried:
+            raise Unsupported("loop without effect")
+        ctys = ["Z" if x == idx else env[x][1] for x in carried]
+        for t in ctys:
+            if t not in ("Z", "bool"):
+                raise Unsupported(f"loop-carried variable of type {t}")
+        # everything in scope that the body may mention: function parameters, bound locals, outer elements
+        seen = []
+        for py, (cq, ty) in self.spec["params"].items():
+            if cq not in [c for c, _ in seen]:
+                seen.append((cq, ty))
+        outer = [(c, t) for c, t in self.bound if c not in carried and c not in [x for x, _ in seen]]
+        outer += [(c, t) for c, t in getattr(self, "elems", []) if c not in [x for x, _ in outer]]
+        self.nloops = getattr(self, "nloops", 0) + 1
+        name = f"{self.spec['coq']}_loop{self.nloops}"
+        fixed = seen + outer
+        tup = lambda e2: carried[0] if len(carried) == 1 else "(" + ", ".join(e2[x][0] for x in carried) + ")"  # noqa: E731
+        cur = lambda e2: " ".join(f"({e2[x][0]})" if not e2[x][0].isidentifier() else e2[x][0] for x in carried)  # noqa: E731
+
+        def brk(e2):
+            return e2[carried[0]][0] if len(carried) == 1 else "(" + ", ".join(e2[x][0] for x in carried) + ")"
+
+        def cont(e2):
+            vals = []
+            for x in carried:
+                v = e2[x][0]
+                vals.append(f"({v} + 1)" if x == idx else (v if v.isidentifier() else f"({v})"))
+            return f"({name} {' '.join(c for c, _ in fixed)} {' '.join(vals)} {rest_l})"
+
+        for x in carried:
+            env_l[x] = (x, "Z" if x == idx else env[x][1])
+        saved_bound, saved_elems = self.bound, getattr(self, "elems", [])
+        self.elems = saved_elems + [(el, elty)]
+        self.loops.append((brk, cont))
+        body = self.block(s.body, env_l, None)
+        self.loops.pop()
+        self.bound, self.elems = saved_bound, saved_elems
+        rty = COQTY[ctys[0]] if len(carried) == 1 else "(" + " * ".join(COQTY[t] for t in ctys) + ")"
+        self.aux.append(
+            f"Fixpoint {name} {' '.join(f'({c} : {COQTY[t]})' for c, t in fixed)} "
+            f"{' '.join(f'({x} : {COQTY[t]})' for x, t in zip(carried, ctys))} ({lst} : list {COQTY[elty]}) {{struct {lst}}} : {rty} :=\n"
+            f"  match {lst} with\n  | nil => {brk(env_l)}\n  | cons {el} {rest_l} =>\n  {body}\n  end.\n"
+        )
+        init = " ".join("(0)%Z" if x == idx else (env[x][0] if env[x][0].isidentifier() else f"({env[x][0]})") for x in carried)
+        call = f"({name} {' '.join(c for c, _ in fixed)} {init} {src})"
+        env2 = dict(env)
+        pat = carried[0] if len(carried) == 1 else "'(" + ", ".join(carried) + ")"
+        for x, t in zip(carried, ctys):
+            env2[x] = (x, t)
+        return f"let {pat} := {call} in\n  {nxt(env2)}"
+
+    def definition(self):
+        d = super().definition()
+        return "\n".join(self.aux) + ("\n" if self.aux else "") + d
+
+
+LOOP_SPECS = [
+    dict(file="pulser-core/pulser/sequence/_schedule.py", qual="_ChannelSchedule.get_duration", coq="gen_get_duration", ret="Z",
+         params={"self.slots[::-1]": ("slots", "listslot"), "self.channel_obj.rise_time": ("rise_time", "Z"),
+                 "self.in_eom_mode()": ("in_eom_mode", "bool"), "include_fall_time": ("include_fall_time", "bool")}),
+    dict(file="pulser-core/pulser/sequence/_schedule.py", qual="_Schedule._find_add_delay", coq="gen_find_add_delay", ret="Z",
+         params={"self.items()": ("chs", "listchan"), "t0": ("t0", "Z"), "channel": ("channel", "Z"),
+                 "self[channel][-1].targets": ("tg", "listZ"), "protocol == 'wait-for-all'": ("wfa", "bool")}),
+]
+
+
+def main_loops(repo: Path, out: Path):
+    trees = {}
+    defs = []
+    for sp in LOOP_SPECS:
+        p = repo / sp["file"]
+        tree = trees.setdefault(str(p), ast.parse(p.read_text()))
+        node = find(tree, sp["qual"])
+        fn = LoopFn(sp, node, {}, {})
+        try:
+            defs.append(fn.definition())
+        except Unsupported as e:
+            raise ValueError(f"translator cannot express {sp['qual']} ({sp['file']}): {e}") from e
+    (out / "PureLoops.v").write_text(
+        "(** GENERATED by translate/tr_pure.py from the scheduler's backwards scans - do not edit.\n"
+        "    Time slots and channel schedules are the records of Model/Sched.v; a channel's slots are\n"
+        "    stored latest-first there, which is the order of `slots[::-1]` in the source. *)\n"
+        "From Coq Require Import ZArith Bool List.\nFrom PV Require Import Model.Base Model.Sched.\nOpen Scope Z_scope.\n\n" + "\n".join(defs)
+    )
 
 
 if __name__ == "__main__":
